@@ -319,3 +319,18 @@ class DictV:
 
     def __repr__(self):
         return "DictV(%d entries%s)" % (len(self.entries), ", base=%s" % self.base.name if self.base else "")
+
+
+class Env:
+    __slots__ = ("vars", "parent", "globals", "func", "is_comp", "self_obj", "globals_decl")
+
+    def __init__(self, vars, parent, globals_, func=None, is_comp=False):
+        self.vars = vars
+        self.parent = parent
+        self.globals = globals_
+        self.func = func
+        self.is_comp = is_comp
+        self.self_obj = None
+        self.globals_decl = None
+
+
